@@ -52,15 +52,28 @@ def gen_text(rng):
     return rng.choice(TEXTS)
 
 
+ARC_REPRS = [0, 1, 2, 8, 9, 10, 11]
+
+
+def pick_repr(rng, ctx):
+    return rng.choice(ARC_REPRS) if ctx.in_keyed else rng.randrange(12)
+
+
 class Ctx:
     """what the HTML tree builder lets the generator nest here"""
-    __slots__ = ("in_p", "in_a", "in_button", "in_h1", "svg", "list_parent", "dyn", "nsig", "ids")
+    __slots__ = ("in_p", "in_a", "in_button", "in_h1", "svg", "list_parent", "dyn", "nsig", "ids", "in_keyed", "typed_root")
 
     def __init__(self, dyn=False, nsig=0):
         self.in_p = self.in_a = self.in_button = self.in_h1 = self.svg = self.list_parent = False
         self.dyn = dyn
         self.nsig = nsig
         self.ids = [0]
+        # inside the rows of a keyed list: a row is RETAINED (not rebuilt) when an enclosing closure re-runs, while the
+        # arena-allocated signal wrappers the harness creates for it (RwSignal / ReadSignal / Memo / Signal / MaybeSignal:
+        # representations 3-7) belong to that closure's owner and are disposed by the re-run — leptos' <For> gives
+        # every row an owner of its own for this reason; rows here use the closure / Arc representations only
+        self.in_keyed = False
+        self.typed_root = False
 
     def child(self, tag):
         c = Ctx(self.dyn, self.nsig)
@@ -71,7 +84,19 @@ class Ctx:
         c.in_h1 = self.in_h1 or tag == 13
         c.svg = tag in (7, 8)
         c.list_parent = tag in (4, 10)
+        c.in_keyed = self.in_keyed
         return c
+
+    def keyed(self):
+        c = Ctx(self.dyn, self.nsig)
+        c.ids = self.ids
+        c.in_p, c.in_a, c.in_button, c.in_h1, c.svg = self.in_p, self.in_a, self.in_button, self.in_h1, self.svg
+        c.in_keyed = True
+        return c
+
+    def keyed_here(self):
+        self.in_keyed = True
+        return self
 
     def plain(self):
         """the same context for a transparent wrapper (tuples, Option, ...): list items must be direct children"""
@@ -80,6 +105,7 @@ class Ctx:
         c = Ctx(self.dyn, self.nsig)
         c.ids = self.ids
         c.in_p, c.in_a, c.in_button, c.in_h1, c.svg = self.in_p, self.in_a, self.in_button, self.in_h1, self.svg
+        c.in_keyed = self.in_keyed
         return c
 
 
@@ -122,7 +148,7 @@ def gen_leaf(rng, ctx):
         v = rng.choice([0, 2, 3] if ctx.in_p else [0, 1, 2, 3])
         return [3, v, gen_attrs(rng)]
     if ctx.dyn and ctx.nsig:
-        return [27, 0, rng.randrange(12), rng.randrange(ctx.nsig), []]
+        return [27, 0, pick_repr(rng, ctx), rng.randrange(ctx.nsig), []]
     if r < 0.93 and not ctx.svg:
         from . import c05
         return [12, c05.gen_inert(rng, 1, ctx.in_p)]
@@ -156,34 +182,32 @@ def gen_rich_attrs(rng, ctx, childless):
     elif x < 0.3:
         out.append([8, rng.randrange(2), [1, b(gen_text(rng))]])
     elif x < 0.5 and dyn:
-        out.append([10, rng.randrange(12), sig()])
+        out.append([10, pick_repr(rng, ctx), sig()])
     # whole class
     x = r()
     if x < 0.3:
         rp = rng.randrange(5)
         out.append([1, rp, [1, b(rng.choice(CLASS_VALS))] if (rp < 4 or r() < 0.6) else [0]])
     elif x < 0.45 and dyn:
-        out.append([11, rng.randrange(12), sig()])
+        out.append([11, pick_repr(rng, ctx), sig()])
     # toggles (a dynamic toggle next to a dynamic whole class is order dependent: `class=` rewrites the attribute)
     x = r()
     if x < 0.3:
         out.append([2, 0, [1, b("1")] if r() < 0.5 else [0]])
     elif x < 0.45 and dyn and not any(a[0] == 11 for a in out):
-        out.append([12, rng.randrange(12), sig()])
+        out.append([12, pick_repr(rng, ctx), sig()])
     if r() < 0.15:
         out.append([2, 1, [1, b("1")] if r() < 0.5 else [0]])
     # styles: whole XOR properties
+    # (a whole `style=` is only generated on typed roots, where both views have it: the native DOM keeps the style
+    # attribute and the CSSOM apart, so an element rebuilt in place from `style:x=` to `style=` — attribute kinds of
+    # two erased types — would differ between a parsed and a built element only because of that separation)
     x = r()
-    if x < 0.15:
-        rp = rng.randrange(4)
-        out.append([5, rp, [1, b(rng.choice(WHOLE_STYLES))] if (rp < 3 or r() < 0.6) else [0]])
-    elif x < 0.22 and dyn:
-        out.append([14, rng.randrange(12), sig()])
-    else:
+    if True:
         if x < 0.45:
             out.append([3, 2 * rng.randrange(3), [1, b(rng.choice(STYLE_VALS))]])
         elif x < 0.6 and dyn:
-            out.append([13, rng.randrange(12), sig()])
+            out.append([13, pick_repr(rng, ctx), sig()])
         if r() < 0.15:
             out.append([3, 2 * rng.randrange(3) + 1, [1, b(rng.choice(STYLE_VALS))]])
     if r() < 0.15:
@@ -239,9 +263,11 @@ def gen_wide(rng, depth, ctx):
     if r < 0.70:
         return [10, sub()]
     if r < 0.73:
-        return [11, many(0, 3)]
+        return [11, [gen_wide(rng, depth - 1, ctx.keyed()) for _ in range(rng.randint(0, 3))]]
     if r < 0.77:
-        return [20, many(0, 3)]
+        # (an EMPTY StaticVec has no node and no marker: as the branch of a closure it can neither be replaced in
+        # place nor rebuilt once unmounted — it panics on any tree, C03's subject — so dynamic views have none)
+        return [20, many(1 if ctx.dyn else 0, 3)]
     if r < 0.80:
         return [21, sub(), sub()] if rng.random() < 0.4 else [28, [sub() for _ in range(rng.choice([0, 1, 3]))]]
     if r < 0.84:
@@ -264,16 +290,20 @@ def gen_wide(rng, depth, ctx):
         kinds = rng.sample([0, 1, 2, 3], rng.randint(1, 3))
         if has_whole_style(v):
             kinds = [k for k in kinds if k != 2] or [0]
-        if spread_hits_inert(v):
+        kinds = [k for k in kinds if k not in spread_kinds(v)]
+        if spread_hits_inert(v) or not kinds:
             return v
         vals = {0: b(gen_text(rng)), 1: b(rng.choice(["1", ""])), 2: b(rng.choice(STYLE_VALS)), 3: b(rng.choice(["k", "s"]))}
         return [25, [[k, vals[k]] for k in sorted(kinds)], v]
     if r < 0.98:
-        return [14, 0, 0, sub()]
+        # (in a dynamic view the content of a Suspend may be built by a task after a re-run disposed the owner)
+        return [14, 0, 0, gen_wide(rng, depth - 1, ctx.keyed() if ctx.dyn else ctx.plain())]
     if ctx.dyn and ctx.nsig and rng.random() < 0.3 and not ctx.svg:
         ctx.ids[0] += 1
         t = 1 if ctx.in_p else rng.choice([0, 1])
-        return [2, t, [], [[14, ctx.ids[0], 2, gen_wide(rng, depth - 1, ctx.child(t))]]]
+        # (the content of a local Suspend is built later, by the spawned task: like a keyed row it only uses the
+        # closure / Arc representations — an arena wrapper would belong to an owner that a re-run has disposed)
+        return [2, t, [], [[14, ctx.ids[0], 2, gen_wide(rng, depth - 1, ctx.child(t).keyed_here())]]]
     if ctx.dyn and ctx.nsig:
         k = rng.choice([1, 1, 2, 3, 4, 5])
         alts = [] if k == 5 else [sub() for _ in range({1: rng.randint(2, 3), 2: 2, 3: 1, 4: rng.randint(1, 3)}[k])]
@@ -332,6 +362,12 @@ def spread_hits_inert(v):
     return any(x[0] == 12 for x in top_nodes(v))
 
 
+def spread_kinds(v):
+    """the attribute kinds spread anywhere inside v (one attribute name has one owner per element: a spread is
+    never put around another spread of the same attribute)"""
+    return {a[0] for x in walk(v) if x[0] == 25 for a in x[1]}
+
+
 def has_op(v, ops):
     return any(x[0] in ops for x in walk(v))
 
@@ -359,7 +395,7 @@ def mutate_wide(rng, v, ctx, depth=2):
         return [13, rng.choice([0, 1, 99])]
     if op == 2 and len(v[3]) == 1 and v[3][0][0] == 14 and v[3][0][2] == 2:
         k = v[3][0]
-        return [2, v[1], [], [[14, k[1], 2, mutate_wide(rng, k[3], ctx.child(v[1]), depth)]]]
+        return [2, v[1], [], [[14, k[1], 2, mutate_wide(rng, k[3], ctx.child(v[1]).keyed_here(), depth)]]]
     if op == 2:
         c = ctx.child(v[1])
         kids = [mutate_wide(rng, k, c if k[0] == 2 and k[1] == 9 else (c.plain() if v[1] in (4, 10) else c), depth) for k in v[3]]
@@ -398,18 +434,19 @@ def mutate_wide(rng, v, ctx, depth=2):
     if op in (7, 8):
         return [15 - op, gen_wide(rng, 1, ctx.plain())] if r < 0.4 else [op, m(v[1])]
     if op in (9, 11, 20):
-        items = [m(k) for k in v[1]]
+        ictx = ctx.keyed() if op == 11 else ctx.plain()
+        items = [mutate_wide(rng, k, ictx, depth) for k in v[1]]
         if r < 0.35 and items:
             items.pop(rng.randrange(len(items)))
         elif r < 0.7:
-            items.insert(rng.randint(0, len(items)), gen_wide(rng, 1, ctx.plain()))
+            items.insert(rng.randint(0, len(items)), gen_wide(rng, 1, ictx))
         elif r < 0.8 and len(items) > 1:
             rng.shuffle(items)
         return [op, items]
     if op in (10, 23):
         return [op, m(v[1])]
     if op == 14:
-        return [14, v[1], v[2], m(v[3])]
+        return [14, v[1], v[2], mutate_wide(rng, v[3], ctx.keyed() if ctx.dyn else ctx.plain(), depth)]
     if op == 16:
         return [17, (1 - v[3]) if r < 0.7 else v[3]]
     if op == 18:
@@ -430,11 +467,13 @@ def mutate_wide(rng, v, ctx, depth=2):
             return inner
         attrs = []
         for k, val in v[1]:
-            if k == 2 and has_whole_style(inner):
+            if (k == 2 and has_whole_style(inner)) or k in spread_kinds(inner):
                 continue
             attrs.append([k, b(rng.choice(["1", ""])) if k == 1 else b(rng.choice(STYLE_VALS)) if k == 2
                           else b(rng.choice(["k", "s"])) if k == 3 else b(gen_text(rng))])
-        return [25, attrs or [[0, b("z")]], inner]
+        if not attrs:
+            return inner
+        return [25, attrs, inner]
     if op == 27:
         return v
     return v
@@ -446,6 +485,10 @@ def _utf8_ok(bs):
     return 0 not in bs and 13 not in bs
 
 
+def ctx_allows_whole_style(ctx):
+    return getattr(ctx, "typed_root", False)
+
+
 def rich_attrs_ok(attrs, childless, ctx):
     seen = set()
     for a in attrs:
@@ -454,6 +497,8 @@ def rich_attrs_ok(attrs, childless, ctx):
         k, rp, val = a
         has = val[0] == 1
         if has and not _utf8_ok(val[1]):
+            return False
+        if k in (5, 14) and not ctx_allows_whole_style(ctx):
             return False
         if k in (0, 8, 10):
             slot = "dir"
@@ -477,7 +522,7 @@ def rich_attrs_ok(attrs, childless, ctx):
             return False
         seen.add(slot)
         if k >= 10:
-            if not (ctx.dyn and has and 0 <= rp < 12):
+            if not (ctx.dyn and has and 0 <= rp < 12) or (ctx.in_keyed and rp not in ARC_REPRS):
                 return False
             try:
                 if not (0 <= int(bytes(val[1]).decode()) < ctx.nsig):
@@ -546,7 +591,7 @@ def _wide_ok(v, ctx):
         c = ctx.child(v[1])
         if len(v[3]) == 1 and v[3][0][:1] == [14] and len(v[3][0]) == 4 and v[3][0][2] == 2:
             # a local Suspend: the only child of its element, so that the Position it hands back does not matter
-            return ctx.dyn and v[1] in (0, 1) and v[2] == [] and isinstance(v[3][0][1], int) and _wide_ok(v[3][0][3], c)
+            return ctx.dyn and v[1] in (0, 1) and v[2] == [] and isinstance(v[3][0][1], int) and _wide_ok(v[3][0][3], c.keyed_here())
         return all(_wide_ok(k, c if (k and k[0] == 2 and k[1] == 9) or v[1] not in (4, 10) else c.plain()) for k in v[3])
     if op == 26:
         if not (len(v) == 4 and v[1] in (0, 1, 2) and not (ctx.in_p and v[1] != 1)):
@@ -557,14 +602,16 @@ def _wide_ok(v, ctx):
         return all(_wide_ok(k, c) for k in v[3])
     if op == 4:
         return len(v) == 2 and len(v[1]) >= 1 and all(sub(k) for k in v[1])
-    if op in (9, 11, 20):
-        return len(v) == 2 and all(sub(k) for k in v[1])
+    if op == 11:
+        return len(v) == 2 and all(_wide_ok(k, ctx.keyed()) for k in v[1])
+    if op in (9, 20):
+        return len(v) == 2 and all(sub(k) for k in v[1]) and not (op == 20 and ctx.dyn and not v[1])
     if op == 28:
         return len(v) == 2 and len(v[1]) in (0, 1, 3) and all(sub(k) for k in v[1])
     if op in (5, 7, 8, 10, 23):
         return len(v) == 2 and sub(v[1])
     if op == 14:
-        return len(v) == 4 and v[2] == 0 and sub(v[3])
+        return len(v) == 4 and v[2] == 0 and _wide_ok(v[3], ctx.keyed() if ctx.dyn else ctx.plain())
     if op == 16:
         # (the hidden side of a keep-alive inside a dynamic part is rebuilt while unmounted: a StaticVec panics
         # there on any tree, hydrated or not — C03's subject, reported to its builder)
@@ -587,12 +634,12 @@ def _wide_ok(v, ctx):
             return False
         if any(a[0] == 2 and set(a[1]) & {59, 34, 38, 60, 62} for a in v[1]):
             return False
-        return not spread_hits_inert(v[2]) and not (2 in ks and has_whole_style(v[2]))
+        return not spread_hits_inert(v[2]) and not (2 in ks and has_whole_style(v[2])) and not (set(ks) & spread_kinds(v[2]))
     if op == 27:
         if not (ctx.dyn and len(v) == 5 and 0 <= v[3] < ctx.nsig):
             return False
         if v[1] == 0:
-            return 0 <= v[2] < 12 and v[4] == []
+            return 0 <= v[2] < 12 and v[4] == [] and not (ctx.in_keyed and v[2] not in ARC_REPRS)
         if v[1] not in (1, 2, 3, 4, 5) or v[2] not in (0, 2):
             return False
         need = {1: (1, 9), 2: (2, 2), 3: (1, 1), 4: (1, 9), 5: (0, 0)}[v[1]]
